@@ -18,8 +18,7 @@ package main
 //	                               OP ::= ( part STR* ) | ( req STR* )      Partial(keys…) / Required(keys…), in call order
 //	    | ( mapF ( str CK* ) S SZ* )   gozod.Map(String()<CK*>, S)<SZ*>, top level only
 //	    | ( recV WRAP S )          V = Union([S, Slice(LazyAny(→ V))]); the schema is V (root), StrictObject{val: V} (field) or Slice(V)
-//	                               (slice); top level only, default options only; written `recv` when the tree's convertLazy answers
-//	                               the cycle with {"$ref":"#"} (probed: legacyRec; before the fix C07-lazy-ref-nonroot)
+//	                               (slice); top level only, default options only
 //	    | ( slice S SZ* )          SZ ::= ( min N ) | ( max N ) | ( len N )
 //	    | ( arr REST ( cks SZ* ) S* ) | ( tup REST ( cks SZ* ) S* )     REST ::= - | S
 //	    | ( rec S S SZ* )
@@ -70,8 +69,6 @@ type ObjOp struct {
 	Keys []string
 }
 
-// legacyRec: convertLazy of the tree under test answers a cycle that does not close at the root with {"$ref":"#"} (probed).
-var legacyRec bool
 
 type J struct {
 	T  string // n b q s a o
@@ -198,9 +195,6 @@ func (s *Sch) String() string {
 	case "rec":
 		return "( rec " + s.Key.String() + " " + s.Elem.String() + cks(s.Cks) + " )"
 	case "recv":
-		if legacyRec {
-			return "( recv " + s.Kind + " " + s.Elem.String() + " )"
-		}
 		return "( recV " + s.Kind + " " + s.Elem.String() + " )"
 	case "map":
 		return "( mapF " + s.Key.String() + " " + s.Elem.String() + cks(s.Cks) + " )"
